@@ -208,6 +208,8 @@ func WriteFindings(commits map[string]string) error {
 		fixed("D32", "C20", "D32", "wire.Build(NewS, wire.NewSet(wire.NewSet(xconf.LoneBinding))) where LoneBinding is a wire.Bind variable of a third-party module whose concrete type the set does not provide: the only diagnostic was positioned inside the dependency", "C20 failure without a positioned diagnostic", c20w("item", "xconf.LoneBinding", "nested")),
 		fixed("D33", "C20", "D33", "func Inject() S { (wire.Build)(NewS); return S{} } and panic((wire.Build(NewS))): not recognised as injector templates - wire exits 0 without generating an implementation (signature rules unchecked)", "C20 success reported but an injector template got no implementation",
 			rawJSON(&C20Case{Cat: "injector", Form: "func Inject() S { (wire.Build)(NewS); return S{} }", Import: "plain"})),
+		fixed("D34", "C17", "D34", "wire check -tags extra,zzother ./pa (the comma-separated form the usage text advertises): the go command rejects the mixed list \"wireinject extra,zzother\" and every sub-command fails for every package", "C17 exit status differs from the command-line contract",
+			rawJSON(&CLICase{Pkgs: []cliPkg{{Name: "pa", Kind: "ok"}}, Steps: []CLIStep{{Op: "check", Opts: cliOpts{Tags: "extra,zzother"}}, {Op: "gen", Opts: cliOpts{Tags: "extra,zzother"}}}})),
 		known("D15", "C20", "injector body with extra statements: the invalid-injector diagnostic of `wire gen` carries no file:line:col position (its text is pinned by golden file InvalidInjector of the repository's suite, so a repair would change an expected output)", "C20 failure without a positioned diagnostic",
 			rawJSON(&C20Case{Cat: "injector", Form: "func Inject() S { y := 1; _ = y; wire.Build(NewS); return S{} }", Import: "plain"})),
 		known("D20", "C13", "wire.InterfaceValue(new(I), f()) is accepted and the call is copied into the generated package-level variable (the repository's golden test InterfaceValue uses strings.NewReader(...) and pins acceptance)", "C13",
